@@ -114,6 +114,10 @@ type Transport struct {
 	// recording it (as a routing / gateway HTTPClient may do with the request
 	// that belongs to this one call): a later call must not see the rewrite.
 	MutateURL bool
+	// HoldTrailers: Response.Trailer is not filled in when the raw response
+	// body reaches EOF but when PublishTrailers is called (a wrapper that loads
+	// the body ahead of the caller's reads decides when the caller sees EOF).
+	HoldTrailers bool
 	// NoCloseReq: the transport neither reads on nor closes the request body
 	// once the handler has returned (the RoundTripper contract only promises
 	// that the body is closed eventually); used by hostile scenarios in which
@@ -158,6 +162,28 @@ func (t *Transport) Last() *Exchange {
 		return nil
 	}
 	return t.Exchanges[len(t.Exchanges)-1]
+}
+
+// PublishTrailers fills in Response.Trailer of the most recent call (see HoldTrailers).
+func (t *Transport) PublishTrailers() {
+	t.mu.Lock()
+	defer t.mu.Unlock()
+	if len(t.calls) == 0 {
+		return
+	}
+	c := t.calls[len(t.calls)-1]
+	c.mu.Lock()
+	defer c.mu.Unlock()
+	if c.respEOFSeen || c.dropTrailers || c.response == nil {
+		return
+	}
+	c.respEOFSeen = true
+	c.ex.mu.Lock()
+	tr := canonicalClone(c.ex.RespTrail)
+	c.ex.mu.Unlock()
+	for k, v := range tr {
+		c.response.Trailer[k] = v
+	}
 }
 
 // DropTrailers makes the most recent call deliver no HTTP trailers (a body cut
@@ -855,7 +881,7 @@ func (b *respBody) Read(p []byte) (int, error) {
 	c.t.gate("C.read.ret")
 	if err == io.EOF {
 		c.mu.Lock()
-		if !c.respEOFSeen && !c.dropTrailers {
+		if !c.respEOFSeen && !c.dropTrailers && !c.t.HoldTrailers {
 			c.respEOFSeen = true
 			c.ex.mu.Lock()
 			tr := canonicalClone(c.ex.RespTrail)
